@@ -463,7 +463,19 @@ pub fn fixtures(env: &Env, d: D) -> Vec<Fx> {
                         bytes.extend(RawRnd::from(rnd.clone()).encode_length_delimited_to_vec());
                     }
                     let id = NamespaceDataId::new(ns, h).unwrap();
-                    out.push(fx(d, format!("sq{si}-{label}-{}rows", rows.len()), Cx::Nd { id, sq: si }, Frame::Seq, bytes, true));
+                    let f = fx(d, format!("sq{si}-{label}-{}rows", rows.len()), Cx::Nd { id, sq: si }, Frame::Seq, bytes, true);
+                    if si == 2 && label == "first" {
+                        // row counts around the u16 limit of NamespaceData, as minimal rows
+                        const COUNTS: [usize; 7] = [0, 1, 2, 65535, 65536, 65537, 200_000];
+                        let g: TypedGen = Arc::new(move |ord| {
+                            let (n, form) = (COUNTS[ord % 7], ord / 7);
+                            let item: &[u8] = if form == 0 { &[0x00] } else { &[0x02, 0x12, 0x00] };
+                            (format!("namespace-data[{n} rows of form#{form}]"), item.repeat(n))
+                        });
+                        out.push(with_typed(f, 14, g));
+                    } else {
+                        out.push(f);
+                    }
                 }
             }
         }
@@ -515,7 +527,9 @@ pub fn fixtures(env: &Env, d: D) -> Vec<Fx> {
                         }
                     }
                     D::RowProof => {
-                        let spans = [(0usize, 0usize), (0, k.min(2) - 1 + (k > 1) as usize), (k - 1, 2 * k - 1)];
+                        let mut spans = vec![(0usize, 0usize), (0, k.min(2) - 1 + (k > 1) as usize), (k - 1, 2 * k - 1)];
+                        spans.sort();
+                        spans.dedup();
                         for (a, b) in spans {
                             if a > b || b >= 2 * k {
                                 continue;
